@@ -85,8 +85,8 @@ Print Assumptions C06_mailbox_created_effect.
    (a change of letter case is a rename) and applyMessageMailboxesUpdated queues the membership updates before the flag
    updates, applyMailboxCreated stores FLAGS, PERMANENTFLAGS and attributes of the update each in its place *)
 Theorem C06_source_facts : mailbox_rename_compares_exactly = true /\ mailbox_updates_before_flag_updates = true /\
-  mailbox_created_passes_three_sets = true.
-Proof. exact (conj eq_refl (conj eq_refl eq_refl)). Qed.
+  mailbox_created_passes_three_sets = true /\ created_size_is_stored_size = true.
+Proof. exact (conj eq_refl (conj eq_refl (conj eq_refl eq_refl))). Qed.
 Print Assumptions C06_source_facts.
 
 (* a MailboxUpdated whose canonical name differs from the stored one in any way — letter case included — renames the
@@ -109,6 +109,16 @@ Theorem C06_mailboxes_updated_membership_before_flags : forall s e rid mboxes fl
   exists a b, sus = a ++ b /\ forallb su_membership a = true /\ forallb su_flag b = true.
 Proof. exact mailboxes_updated_order. Qed.
 Print Assumptions C06_mailboxes_updated_membership_before_flags.
+
+(* MessageUpdated with another literal: afterwards the remote id leads to a message that is not marked for deletion and
+   whose announced size (RFC822.SIZE = size of the stored literal, [size_of] of the literal token) is the size of the NEW
+   literal as stored — together with the fact created_size_is_stored_size of C06_source_facts *)
+Theorem C06_replaced_message_has_new_literal_and_size : forall (size_of : N -> N) s e rid lit flags mboxes allow m s1 sus,
+  cu_wf s -> cu_find_ms_rid s rid = Some m -> ms_lit m <> lit ->
+  cu_tx s e (UMessageUpdated rid lit flags mboxes allow) = Some (s1, sus) ->
+  exists m1, cu_find_ms_rid s1 rid = Some m1 /\ ms_del m1 = false /\ cu_announced_size size_of m1 = size_of lit.
+Proof. exact message_replaced_size. Qed.
+Print Assumptions C06_replaced_message_has_new_literal_and_size.
 
 Theorem C06_mailbox_deleted_effect : forall s e rid m, rid <> cu_recovery_rid -> cu_find_mb_rid s rid = Some m ->
   exists s1, cu_apply s e (UMailboxDeleted rid) = (s1, AOk, [SuMailboxDeleted (mb_id m)]) /\
